@@ -72,6 +72,10 @@ type vhPhys struct {
 	// stack contains kfStack ("" = any) fails, once
 	kfKind, kfSub, kfStack string
 	kfArmed, kfFired       bool
+	// one-shot hold of a Get after it was performed (HoldAfterGet)
+	agSub, agStack    string
+	agArmed           bool
+	agHit, agRelease  chan struct{}
 }
 
 func vhNewPhys(t *testing.T) *vhPhys {
@@ -219,7 +223,37 @@ func (p *vhPhys) Get(ctx context.Context, k string) (*physical.Entry, error) {
 	if err := p.before("get", k); err != nil {
 		return nil, err
 	}
-	return p.inner.Get(ctx, k)
+	e, err := p.inner.Get(ctx, k)
+	p.mu.Lock()
+	hold := p.agArmed && strings.Contains(k, p.agSub)
+	if hold && p.agStack != "" {
+		b := make([]byte, 16384)
+		b = b[:runtime.Stack(b, false)]
+		hold = bytes.Contains(b, []byte(p.agStack))
+	}
+	if hold {
+		p.agArmed = false
+		hit, rel := p.agHit, p.agRelease
+		p.mu.Unlock()
+		close(hit)
+		<-rel
+		return e, err
+	}
+	p.mu.Unlock()
+	return e, err
+}
+
+// HoldAfterGet arms a one-shot hold: the next Get of a key containing sub, issued from a call stack containing stackSub,
+// is performed and then held BEFORE IT RETURNS (the caller has its — soon stale — copy, but has not acted on it yet).
+// hit is closed when the Get is being held; release() lets it return.
+func (p *vhPhys) HoldAfterGet(sub, stackSub string) (hit chan struct{}, release func()) {
+	p.mu.Lock()
+	defer p.mu.Unlock()
+	p.agSub, p.agStack, p.agArmed = sub, stackSub, true
+	p.agHit, p.agRelease = make(chan struct{}), make(chan struct{})
+	rel := p.agRelease
+	var once sync.Once
+	return p.agHit, func() { once.Do(func() { close(rel) }) }
 }
 
 func (p *vhPhys) Delete(ctx context.Context, k string) error {
